@@ -209,7 +209,7 @@ class Recorder:
 class C16(Check):
     ID = 'C16'
     TRACE_FILES = ('io.py', 'lib/asynconn.py')
-    TIERS = {'quick': {'runs': 3000, 'wall': 80}, 'thorough': {'runs': 300000, 'wall': 800}}
+    TIERS = {'quick': {'runs': 9000, 'wall': 80}, 'thorough': {'runs': 300000, 'wall': 800}}
     MAX_VIRTUAL = 4000
     RULE = ('[device faults incl. garbage in the segment of the reply and fragment-then-silence] ' 'case = line- or byte-oriented communicator + 2..4 caller tasks x <= 6 operations (communicate, writeline, '
             'multicomm with delays) + poller + device script (reply delays up to beyond the time-out, garbage, silence, '
